@@ -50,6 +50,11 @@ def main():
             raise vlib.ToolError("scenario %s is not a failing scenario" % name)
         kind = name.split("_")[0]
         labels = {"scenario:" + name, "fault:" + kind.rstrip("8")}
+        for a, recno, rec in res.get("trace_rejected", []):
+            what = "%s:%s" % (rec.get("ev"), rec.get("stage", rec.get("index", ""))) if rec else "?"
+            rep.add("stage-trace-rejected:" + what, labels=labels | {"stage-trace"},
+                    detail={"arrangement": a, "first_unmatched_record": rec, "record_number": recno},
+                    replay={"scenario": name, "arrangement": a})
         for a, obs in res["runs"]:
             total += 1
             if "crash" in obs:
